@@ -157,8 +157,10 @@ func buildAPPX1(env *Env, v Variant, thorough bool) ([]*Artifact, error) {
 			}
 			return "payload"
 		},
-		replace:     func(name, role string) (bool, string) { return yes(all) },
-		insert:      func(name, where string) (bool, string) { return yes(all + "; an extra file is deployed with the package") },
+		replace: func(name, role string) (bool, string) { return yes(all) },
+		insert: func(name, where string) (bool, string) {
+			return yes(all + "; an extra file is deployed with the package")
+		},
 		remove:      func(name, role string) (bool, string) { return yes(all) },
 		rename:      func(name, role string) (bool, string) { return yes(all) },
 		appendAfter: [2]string{"", "bytes after the end of the ZIP are not read"},
